@@ -67,7 +67,8 @@ def run(ctx):
     fdrv = compile_driver('san', 'drv_fileinfo.c', 'drv_fileinfo')
     NH = 300 if ctx.quick() else 6000
     hists = [gen_history(rng) for _ in range(NH)] + [many_groups_history(rng) for _ in range(4 if ctx.quick() else 40)]
-    hists += ['i0 a0,100,1000 f0,4 i1 a1,8,8 f1,1 c0,1 d0,2 q2 q0', 'i0 i1 c0,1 q0 t0 e0 d0,3 q3 t3', 'i0 a0,5,0 a0,5,0 a0,5,7 t0 l0,0 l0,6 l0,7']
+    hists += ['i0 a0,5,4611686018427387904 i1 c0,1 a0,5,9223372036854775807 q0 t0 i2 a2,5,4611686018427387904 a2,5,4611686018427387904 c0,2 q0 t0',   # totals over several Streams at the VLI limit
+              'i0 a0,100,1000 f0,4 i1 a1,8,8 f1,1 c0,1 d0,2 q2 q0', 'i0 i1 c0,1 q0 t0 e0 d0,3 q3 t3', 'i0 a0,5,0 a0,5,0 a0,5,7 t0 l0,0 l0,6 l0,7']
     impl, fails = run_lines(drv, hists)
     for f in fails: ctx.violation('index driver crashed / sanitizer', {'line': (f[0] or '')[:5000], 'stderr': f[1], 'kind': 'sanitizer'})
     spec, sf = run_lines(orc, ['indexhist ' + h for h in hists])
